@@ -225,18 +225,18 @@ func Rational(f float64) (n, d int64, ok bool) {
 // are not JSON-representable plain data are encoded as [t |-> "alien"] with a
 // description, which no specification value ever equals.
 func ToTagged(v any) any {
-	return toTagged(v, 0)
+	return toTagged(v, 0, visited{})
 }
 
-func toTagged(v any, depth int) any {
+func toTagged(v any, depth int, vs visited) any {
 	if depth > 64 {
 		return Node{"t": "alien", "why": "cycle or depth > 64"}
 	}
-	p, ok := enter(v)
+	p, ok := vs.enter(v)
 	if !ok {
 		return Node{"t": "alien", "why": "cycle or depth > 64"}
 	}
-	defer leave(p)
+	defer vs.leave(p)
 	switch x := v.(type) {
 	case nil:
 		return Node{"t": "null"}
@@ -264,7 +264,7 @@ func toTagged(v any, depth int) any {
 	case []any:
 		es := make([]any, len(x))
 		for i, e := range x {
-			es[i] = toTagged(e, depth+1)
+			es[i] = toTagged(e, depth+1, vs)
 		}
 		return Node{"t": "arr", "e": es}
 	case map[string]any:
@@ -276,13 +276,13 @@ func toTagged(v any, depth int) any {
 				f[k] = Node{"t": "alien", "why": "marker"}
 				continue
 			}
-			f[k] = toTagged(e, depth+1)
+			f[k] = toTagged(e, depth+1, vs)
 		}
 		return Node{"t": "obj", "f": f}
 	case []string:
 		es := make([]any, len(x))
 		for i, e := range x {
-			es[i] = toTagged(e, depth+1)
+			es[i] = toTagged(e, depth+1, vs)
 		}
 		return Node{"t": "arr", "e": es}
 	}
@@ -353,52 +353,42 @@ func asFloat(v any) (float64, bool) {
 // types, exactly when want is dyadic, else within 1e-12 relative. Anything that
 // is not plain data (pointer, func, named engine type, cycle) is unequal.
 func Equal(got, want any) bool {
-	return equal(got, want, 0)
+	return equal(got, want, 0, visited{})
 }
 
-// onPath guards against reference cycles in engine-produced values: a map that is being
-// compared further up the current path makes the values unequal (expected values are trees).
-var (
-	pathMu sync.Mutex
-	onPath = map[uintptr]int{}
-)
+// visited guards against reference cycles in engine-produced values: a map that is being
+// processed further up the current path is a cycle (expected values are trees). One set per
+// top-level call, so concurrent callers do not see each other.
+type visited map[uintptr]bool
 
-func enter(v any) (uintptr, bool) {
+func (vs visited) enter(v any) (uintptr, bool) {
 	m, ok := v.(map[string]any)
 	if !ok || m == nil {
 		return 0, true
 	}
 	p := reflect.ValueOf(m).Pointer()
-	pathMu.Lock()
-	defer pathMu.Unlock()
-	if onPath[p] > 0 {
+	if vs[p] {
 		return p, false
 	}
-	onPath[p]++
+	vs[p] = true
 	return p, true
 }
 
-func leave(p uintptr) {
-	if p == 0 {
-		return
+func (vs visited) leave(p uintptr) {
+	if p != 0 {
+		delete(vs, p)
 	}
-	pathMu.Lock()
-	onPath[p]--
-	if onPath[p] == 0 {
-		delete(onPath, p)
-	}
-	pathMu.Unlock()
 }
 
-func equal(got, want any, depth int) bool {
+func equal(got, want any, depth int, vs visited) bool {
 	if depth > 64 {
 		return false
 	}
-	p, ok := enter(got)
+	p, ok := vs.enter(got)
 	if !ok {
 		return false
 	}
-	defer leave(p)
+	defer vs.leave(p)
 	switch w := want.(type) {
 	case Opaque:
 		return w.matches(got)
@@ -429,7 +419,7 @@ func equal(got, want any, depth int) bool {
 					return false
 				}
 				for i := range gs {
-					if !equal(gs[i], w[i], depth+1) {
+					if !equal(gs[i], w[i], depth+1, vs) {
 						return false
 					}
 				}
@@ -441,7 +431,7 @@ func equal(got, want any, depth int) bool {
 			return false
 		}
 		for i := range g {
-			if !equal(g[i], w[i], depth+1) {
+			if !equal(g[i], w[i], depth+1, vs) {
 				return false
 			}
 		}
@@ -453,7 +443,7 @@ func equal(got, want any, depth int) bool {
 		}
 		for k, e := range w {
 			ge, ok := g[k]
-			if !ok || !equal(ge, e, depth+1) {
+			if !ok || !equal(ge, e, depth+1, vs) {
 				return false
 			}
 		}
@@ -467,21 +457,21 @@ func equal(got, want any, depth int) bool {
 // they never collide with plain ones.
 func Canon(v any) string {
 	var b strings.Builder
-	canon(&b, v, 0)
+	canon(&b, v, 0, visited{})
 	return b.String()
 }
 
-func canon(b *strings.Builder, v any, depth int) {
+func canon(b *strings.Builder, v any, depth int, vs visited) {
 	if depth > 64 || b.Len() > 1<<16 {
 		b.WriteString("<cycle>")
 		return
 	}
-	p, ok := enter(v)
+	p, ok := vs.enter(v)
 	if !ok {
 		b.WriteString("<cycle>")
 		return
 	}
-	defer leave(p)
+	defer vs.leave(p)
 	if f, ok := asFloat(v); ok {
 		n, d, ok := Rational(f)
 		if ok {
@@ -504,7 +494,7 @@ func canon(b *strings.Builder, v any, depth int) {
 			if i > 0 {
 				b.WriteByte(',')
 			}
-			canon(b, e, depth+1)
+			canon(b, e, depth+1, vs)
 		}
 		b.WriteByte(']')
 	case map[string]any:
@@ -519,7 +509,7 @@ func canon(b *strings.Builder, v any, depth int) {
 				b.WriteByte(',')
 			}
 			fmt.Fprintf(b, "%q:", k)
-			canon(b, x[k], depth+1)
+			canon(b, x[k], depth+1, vs)
 		}
 		b.WriteByte('}')
 	case Opaque:
